@@ -226,6 +226,10 @@ def _loop_guard_path(f, app, chk_block):
     return search(f, app, lambda x: x is app, stop=lambda x: x.block is chk_block, eh=False)
 
 
+def pn_(ctx):
+    return jp(ctx, "_parseNumber")
+
+
 def r2(ctx, r):
     fb = ctx.fb()
     pv, pa, po, ps = jp(ctx, "_parseValue"), jp(ctx, "_parseArray"), jp(ctx, "_parseObject"), jp(ctx, "_parseString")
@@ -289,6 +293,38 @@ def r2(ctx, r):
             ok = len(cbs) == 1 and common.cmp_parts(cbs[0].cond)[0] in (">=", ">") and dominated_by_edge(g, e, cbs[0], 1, eh=False) and _loop_guard_path(g, e, cbs[0]) is None
             r.expect(ok, g, e, "growth before limit: %s" % var, "%s grows `%s` on a path (or loop iteration) that does not pass the false edge of `%s.size() >= _limits.%s`" % (last(g.name), var, var, limit),
                      okdesc="%s: %s grows only behind the %s test" % (last(g.name), var, limit))
+    # duplicate keys: the later member replaces the earlier one (what RFC 8259 leaves open, every common decoder — and the
+    # property's reference decoder — resolves as "last wins")
+    stores = [e for e in po.stmts() if (e.node.get("k") == "mcall" and last(e.node.get("callee", "")) in ("emplace", "insert", "try_emplace", "insert_or_assign", "emplace_hint") and strip_casts(e.node.get("obj") or {}).get("n") == "obj")
+              or (assign_parts(e.node) and strip_casts(assign_parts(e.node)[0]).get("k") == "opcall" and strip_casts(assign_parts(e.node)[0]).get("op") == "[]" and strip_casts(strip_casts(assign_parts(e.node)[0])["args"][0]).get("n") == "obj")]
+    r.instance()
+    if not stores:
+        raise AnalysisBroken("_parseObject: member store not found")
+    okd = all((e.node.get("k") != "mcall") or last(e.node.get("callee", "")) == "insert_or_assign" for e in stores)
+    r.expect(okd, po, stores[0], "duplicate key keeps the first value", "_parseObject stores a member with %s, which leaves an existing key untouched: for `{\"a\":1,\"a\":2}` the first value wins, while the reference decoder "
+             "(and the assignment `obj[key] = value`) keep the last" % (last(stores[0].node.get("callee", "")) if stores[0].node.get("k") == "mcall" else "?"), okdesc="duplicate keys: last member wins (assignment through operator[])")
+    # integers that do not fit 64 bits fall back to the floating-point conversion instead of failing
+    ib = [b for b in pn_(ctx).blocks.values() if b.cond is not None and common.cmp_parts(b.cond) and ".ec" in show(common.cmp_parts(b.cond)[1]) and "errc" in show(common.cmp_parts(b.cond)[2])]
+    r.instance()
+    okf = len(ib) == 1
+    if okf:
+        f_ = pn_(ctx)
+        op = common.cmp_parts(ib[0].cond)[0]
+        fail_edge = 1 if op == "==" else 0
+        els = []
+        work, seenb = [ib[0].succs[fail_edge]], set()
+        while work:
+            bb = work.pop()
+            if bb is None or bb in seenb or bb == ib[0].id:
+                continue
+            seenb.add(bb)
+            els.extend(f_.blocks[bb].elems)
+            if len(seenb) < 4:
+                work.extend(f_.blocks[bb].succs)
+        okf = any(x.kind == "stmt" and x.node.get("k") in ("call", "mcall") and last(x.node.get("callee", "")) in ("strtod", "stod", "_toDouble", "from_chars") for x in els) and \
+            not any(x.kind == "stmt" and x.node.get("k") == "ret" and const_value(strip_casts(x.node.get("v") or {})) == 0 for x in els[:6])
+    r.expect(okf, pn_(ctx), None, "integer overflow not decoded", "an integer literal that does not fit std::int64_t (from_chars reports an error) is not converted as a floating-point number: valid texts such as 1e19 written as "
+             "10000000000000000000 are rejected or decoded wrongly", okdesc="int64 overflow → floating-point conversion")
     # string length
     apps = [e for e in ps.stmts() if (e.node.get("k") == "opcall" and e.node.get("op") == "+=" and strip_casts(e.node["args"][0]).get("n") == "str")
             or (e.node.get("k") in ("call", "mcall") and any(strip_casts(a).get("n") == "str" and "&" in (strip_casts(a).get("t") or "&") for a in e.node.get("args", [])) and last(e.node.get("callee", "")) not in ("move", "Json"))
@@ -835,6 +871,81 @@ def r5(ctx, r):
         raise AnalysisBroken("only %d loops found in JsonParser (floor 8)" % n)
 
 
+def r7(ctx, r):
+    """first-character dispatch and literal tables of the value parser"""
+    pv = jp(ctx, "_parseValue")
+    sw = switch_on(pv, "c")
+    want = {ord("n"): "_parseNull", ord("t"): "_parseBool", ord("f"): "_parseBool", ord('"'): "_parseString", ord("["): "_parseArray", ord("{"): "_parseObject", ord("-"): "_parseNumber"}
+    want.update({ord(str(d)): "_parseNumber" for d in range(10)})
+    got = {}
+    labels = {}
+    for b in pv.blocks.values():
+        for lb in (b.raw.get("labels") or ([b.label] if b.label else [])):
+            if lb and lb.get("k") == "case" and lb.get("v"):
+                labels.setdefault(b.id, []).append(const_value(lb["v"]))
+    for si in range(len(sw.succs)):
+        lab = sw.edge_label(si)
+        if not lab or lab == "default":
+            continue
+        els, _ = arm_elems(pv, sw, si)
+        calls = [last(e.node["callee"]) for e in els if e.kind == "stmt" and e.node.get("k") == "mcall" and last(e.node.get("callee", "")).startswith("_parse")]
+        for cv in (labels.get(sw.succs[si]) or [const_value(lab[1])]):
+            got[cv] = calls[0] if calls else None
+    # fall-through labels share the block of the next label: walk label blocks in source order
+    for bid, cvs in labels.items():
+        for cv in cvs:
+            if cv not in got or got[cv] is None:
+                els = _first_call_from(pv, bid)
+                got[cv] = els
+    r.instance(len(want))
+    for cv, callee in sorted(want.items()):
+        r.expect(got.get(cv) == callee, pv, None, "value dispatch: %r" % chr(cv), "_parseValue sends a value starting with %r to %s (expected %s): valid texts starting with that character are rejected or mis-decoded" % (chr(cv), got.get(cv), callee),
+                 okdesc="%r → %s" % (chr(cv), callee))
+    # literals: compared text, compared length and advance agree
+    for fn_, lits in (("_parseNull", {"null": None}), ("_parseBool", {"true": 1, "false": 0})):
+        f = jp(ctx, fn_)
+        seen = {}
+        for b in f.blocks.values():
+            cp = common.cmp_parts(b.cond) if b.cond is not None else None
+            if not cp or cp[0] != "==":
+                continue
+            lit = [x.get("v") for x in walk(cp[2]) if x.get("k") == "str"]
+            sub = [x for x in walk(cp[1]) if x.get("k") == "mcall" and last(x.get("callee", "")) == "substr"]
+            if len(lit) != 1 or len(sub) != 1:
+                continue
+            n_ = const_value(strip_casts(sub[0]["args"][1])) if len(sub[0]["args"]) > 1 else None
+            tb = f.blocks[b.succs[0]]
+            adv = [const_value(strip_casts(e.node["rhs"])) for e in tb.elems if e.kind == "stmt" and e.node.get("k") == "bin" and e.node.get("op") == "+=" and is_pos(e.node["lhs"])]
+            val = [const_value(x) for e in tb.elems if e.kind == "stmt" and assign_parts(e.node) and strip_casts(assign_parts(e.node)[0]).get("n") == "out" for x in walk(assign_parts(e.node)[1]) if x.get("k") == "bool"]
+            seen[lit[0]] = (n_, adv[0] if adv else None, val[0] if val else None)
+        for lit, want_v in lits.items():
+            r.instance()
+            got_ = seen.get(lit)
+            ok = got_ is not None and got_[0] == len(lit) and got_[1] == len(lit) and (want_v is None or got_[2] == want_v)
+            r.expect(ok, f, None, "literal %s" % lit, "%s handles the literal `%s` as (compared length, advance, value) = %s; expected (%d, %d, %s)" % (fn_, lit, got_, len(lit), len(lit), want_v), okdesc="`%s`: %d compared, %d consumed" % (lit, len(lit), len(lit)))
+    # separators
+    for fn_, chars in (("_parseArray", "[],"), ("_parseObject", "{},:")):
+        f = jp(ctx, fn_)
+        have = {chr(const_value(x)) for b in f.blocks.values() if b.cond is not None for x in walk(b.cond) if x.get("k") == "char" and const_value(x) is not None and 0 < const_value(x) < 128}
+        r.instance()
+        r.expect(set(chars) <= have, f, None, "separators of %s" % fn_, "%s does not test for all of %s (found %s)" % (fn_, " ".join(chars), sorted(have)), okdesc="%s tests %s" % (fn_, " ".join(chars)))
+
+
+def _first_call_from(f, bid):
+    seen, work = set(), [bid]
+    while work:
+        b = work.pop(0)
+        if b is None or b in seen:
+            continue
+        seen.add(b)
+        for e in f.blocks[b].elems:
+            if e.kind == "stmt" and e.node.get("k") == "mcall" and last(e.node.get("callee", "")).startswith("_parse"):
+                return last(e.node["callee"])
+        work.extend(f.blocks[b].succs)
+    return None
+
+
+
 CONVERTERS = ("strtod", "strtold", "strtof", "stod", "stold", "atof", "from_chars", "sscanf", "strtoll", "strtol", "stoll", "atoll")
 
 
@@ -932,4 +1043,5 @@ def run(ctx, ck):
     ck.run_rule("C13-R3", "escape tables of parser and serializer agree with RFC 8259 and each other; \\u/surrogate/UTF-8 arithmetic exact", "A10 table extraction + exact finite-domain evaluation of pure expressions", lambda r: r3(ctx, r))
     ck.run_rule("C13-R4", "serializer type switch exhaustive; doubles round-trip-safe, finite only, re-parse as Double", "A10 + A2", lambda r: r4(ctx, r))
     ck.run_rule("C13-R5", "every parser loop makes progress", "A2 cycle analysis", lambda r: r5(ctx, r))
+    ck.run_rule("C13-R7", "first-character dispatch, literal and separator tables of the value grammar", "A10 table extraction", lambda r: r7(ctx, r))
     ck.run_rule("C13-R6", "numeric conversions operate on the whole scanned literal", "A10 dataflow from the literal's view to every converter", lambda r: r6(ctx, r))
